@@ -474,6 +474,11 @@ where
         for i in from..stored_to {
             if unlikely(hole_iter.peek() == Some(&&i)) {
                 hole_iter.next();
+                // A rollback can leave a deleted slot in `updated` as well (the value
+                // a deeper rollback restores): step over it or the cursor stalls.
+                if unlikely(update_iter.peek().is_some_and(|&(&k, _)| k == i)) {
+                    update_iter.next();
+                }
                 byte_off += Self::SIZE_OF_T;
                 continue;
             }
@@ -523,6 +528,11 @@ where
         for i in from..stored_to {
             if unlikely(hole_iter.peek() == Some(&&i)) {
                 hole_iter.next();
+                // A rollback can leave a deleted slot in `updated` as well (the value
+                // a deeper rollback restores): step over it or the cursor stalls.
+                if unlikely(update_iter.peek().is_some_and(|&(&k, _)| k == i)) {
+                    update_iter.next();
+                }
                 byte_off += Self::SIZE_OF_T;
                 continue;
             }
